@@ -131,10 +131,14 @@ def run(res):
         if len(samples) < 4:
             samples.append(x["case"])
         if x["problems"]:
-            if x.get("stamp_window") and has_f18:
+            # a known finding is its kill window AND its symptom: the recovery run itself ends with 0
+            # (F8: the target is taken for a hand edit; F18: a stale file is judged clean).  A recovery
+            # that fails, panics or hangs in the same window is something else (that is how F59 hid).
+            quiet = not any(pb.startswith("recovery run") for pb in x["problems"])
+            if x.get("stamp_window") and has_f18 and quiet:
                 known += 1
                 res.known("stamp_before_install", "F18 a kill after the target's redo-stamp committed and before the job installed the target: the next run keeps the stale file as clean")
-            elif x["known_window"] and has_f8:
+            elif x["known_window"] and has_f8 and quiet:
                 known += 1
                 res.known("rename_before_commit", "F8 a kill after <target>.redo.tmp was renamed onto the target and before the commit that records it: the next run takes the new file for a manual edit ('you modified it; skipping') and never rebuilds it again")
             else:
